@@ -59,7 +59,7 @@ def int_containing__reach(maxval: int, signed: bool) -> bool:
     pre: maxval >= 0
     post: not _
     """
-    return _holds(maxval, signed) and maxval >= 2 ** 32 and not signed
+    return maxval >= 2 ** 32 and not signed
 
 
 def int_containing__explain(maxval, signed):
@@ -125,7 +125,7 @@ def capacity__reach(neg: bool, digits: str, null: bool) -> bool:
     pre: dom_digits(digits)
     post: not _
     """
-    return _capacity_ok(neg, digits, null) and len(digits) == N and digits[0] != '0'
+    return len(digits) == N and digits[0] != '0'
 
 
 def capacity__in_neg(neg: bool, digits: str, null: bool) -> bool:
@@ -149,7 +149,7 @@ def capacity__excl__reach(neg: bool, digits: str, null: bool) -> bool:
     pre: dom_digits(digits) and not known_capacity_negative(neg, digits, null)
     post: not _
     """
-    return _capacity_ok(neg, digits, null) and null
+    return null
 
 
 def capacity__explain(neg, digits, null):
@@ -198,7 +198,7 @@ def set_string_bounds__reach(data: List[int], as_bytes: bool, null: bool) -> boo
     pre: L.dom_lit(data)
     post: not _
     """
-    return _bounds_ok(data, as_bytes, null) and len(data) == N
+    return len(data) == N
 
 
 def set_string_bounds__in_utf8(data: List[int], as_bytes: bool, null: bool) -> bool:
@@ -230,7 +230,7 @@ def set_string_bounds__excl__reach(data: List[int], as_bytes: bool, null: bool) 
     pre: L.dom_lit(data) and not L.known_lit_utf8(data, as_bytes) and not L.known_lit_hexrun(data)
     post: not _
     """
-    return _bounds_ok(data, as_bytes, null) and len(data) == N
+    return len(data) == N
 
 
 def set_string_bounds__explain(data, as_bytes, null):
